@@ -242,6 +242,8 @@ def pipeline(job, trace_props=None, tag=""):
             cmd = ["goto-instrument"]
             for r in job.replace_calls:
                 cmd += ["--replace-calls", r]
+            for r in job.restrict_fp:          # must happen in the first pass: later passes have already removed the pointers
+                cmd += ["--restrict-function-pointer", r]
             cmd += [a_gb, c_gb]
             rc, text, dt = run(cmd, 300)
             log.write("$ %s\n%s\n" % (" ".join(cmd), text))
@@ -257,8 +259,9 @@ def pipeline(job, trace_props=None, tag=""):
                 cmd += ["--enforce-contract-rec", e]
             for r in job.replace:
                 cmd += ["--replace-call-with-contract", r]
-            for r in job.restrict_fp:
-                cmd += ["--restrict-function-pointer", r]
+            if not job.replace_calls:
+                for r in job.restrict_fp:
+                    cmd += ["--restrict-function-pointer", r]
             if job.loops and not degraded:
                 lf = os.path.join(wd, "loops.json")
                 if isinstance(job.loops, dict):
